@@ -39,8 +39,8 @@ def names_for(tier):
 
 
 @st.composite
-def case_st(draw):
-    if draw(st.integers(0, 14)) == 0:
+def case_st(draw, only=None):
+    if only == "non-constant-divisor" or (only is None and draw(st.integers(0, 14)) == 0):
         # non-constant divisor must raise FeatureNotSupported
         fn = draw(st.sampled_from(["true_divide", "floor_divide", "remainder", "divmod"]))
         pog = PolyOperands(max_terms=3, max_exp=2, kinds="if", max_names=2)
@@ -58,7 +58,7 @@ def case_st(draw):
             num = pog.array(draw, shape=shape, names=["q0"])
         return {"fn": fn, "args": [P(num), P(den)], "kw": {}, "expect": "FeatureNotSupported",
                 "spelling": draw(st.sampled_from(["numpoly", "numpy"]))}
-    fn = draw(st.sampled_from(names_for("quick")))
+    fn = only or draw(st.sampled_from(names_for("quick")))
     call = RECIPES[fn].gen(draw, OG)
     call["fn"] = fn
     call["spelling"] = "numpoly" if fn in ("full", "zeros", "ones") else draw(st.sampled_from(["numpoly", "numpy"]))
@@ -67,6 +67,14 @@ def case_st(draw):
 
 def strategy(tier):
     return case_st()
+
+
+def STRATA(tier):
+    return names_for(tier) + ["non-constant-divisor", "non-constant-divisor"]
+
+
+def strategy_for(tier, name):
+    return case_st(only=name)
 
 
 def as_numeric(x, numpoly):
@@ -173,9 +181,13 @@ def check_case(case, ctx):
         with numpy.errstate(all="ignore"):
             got = invoke(rec, args, kw, case.get("spelling", "numpoly"))
     except Exception as err:
+        if cls() == "axis-omitted":  # one root cause, whatever the symptom
+            return [Failure("repeat:shape:axis-omitted", repr(err))]
         return [Failure("%s:exception:%s:%s" % (fn, type(err).__name__, cls()), repr(err))]
     r = same(got, expected, fn, numpoly)
     if r:
+        if cls() == "axis-omitted":
+            return [Failure("repeat:shape:axis-omitted", r[1])]
         return [Failure("%s:%s:%s" % (fn, r[0], cls()), r[1])]
     ctx.label("fn:" + fn)
     arr = numpy.asarray(rargs[0]) if not isinstance(rargs[0], (list, tuple)) or not rargs[0] else numpy.asarray(rargs[0][0])
